@@ -3,10 +3,16 @@
 import asyncio
 from contextlib import suppress
 from dataclasses import dataclass
-from typing import Any, Dict, Optional
+from typing import Any, Dict, List, Optional, Tuple
 
 from asyncssh.connection import SSHClientConnection, connect
-from asyncssh.misc import ConnectionLost, PermissionDenied
+from asyncssh.misc import (
+    ConnectionLost,
+    HostKeyNotVerifiable,
+    KeyExchangeFailed,
+    PermissionDenied,
+)
+from asyncssh.public_key import KeyImportError, SSHKey, import_public_key
 from asyncssh.stream import SSHReader, SSHWriter
 
 from scrapli.decorators import timeout_wrapper
@@ -111,6 +117,37 @@ class AsyncsshTransport(AsyncTransport):
                 f"{self._base_transport_args.host} not in known_hosts!"
             )
 
+    def _known_host_keys(self) -> Tuple[List[SSHKey], List[SSHKey], List[SSHKey]]:
+        """
+        Load the public key known_hosts holds for the host in the form asyncssh accepts
+
+        Handing the expected key to asyncssh makes asyncssh itself refuse a server presenting any
+        other key during the key exchange -- that is before any credentials are sent to the server.
+
+        Args:
+            N/A
+
+        Returns:
+            Tuple: trusted host keys, trusted ca keys, revoked keys (the latter two always empty)
+
+        Raises:
+            ScrapliAuthenticationFailed: if the public key in known_hosts cannot be loaded
+
+        """
+        known_hosts = SSHKnownHosts(self.plugin_transport_args.ssh_known_hosts_file)
+        known_host_public_key = known_hosts.lookup(self._base_transport_args.host)
+
+        try:
+            known_key = import_public_key(
+                f"{known_host_public_key['key_type']} {known_host_public_key['public_key']}"
+            )
+        except (KeyError, KeyImportError) as exc:
+            raise ScrapliAuthenticationFailed(
+                f"failed loading known_hosts public key for host {self._base_transport_args.host}"
+            ) from exc
+
+        return [known_key], [], []
+
     def _verify_key_value(self) -> None:
         """
         Verify target host public key, raise exception if invalid/unknown
@@ -173,6 +210,11 @@ class AsyncsshTransport(AsyncTransport):
             "config": self.plugin_transport_args.ssh_config_file,
         }
 
+        if self.plugin_transport_args.auth_strict_key:
+            # let asyncssh know the key we expect so a server presenting any other key is refused
+            # during key exchange, before authentication; the key value is checked again below
+            common_args["known_hosts"] = self._known_host_keys()
+
         # Allow passing `transport_options` to asyncssh
         common_args.update(self._base_transport_args.transport_options.get("asyncssh", {}))
 
@@ -196,6 +238,16 @@ class AsyncsshTransport(AsyncTransport):
                 connect(**conn_args),
                 timeout=self._base_transport_args.timeout_socket,
             )
+        except (HostKeyNotVerifiable, KeyExchangeFailed) as exc:
+            if not self.plugin_transport_args.auth_strict_key:
+                raise
+            # asyncssh only accepts (and only negotiates for) the key we found in known_hosts
+            msg = (
+                f"{self._base_transport_args.host} in known_hosts but public key does not match! "
+                f"({exc})"
+            )
+            self.logger.critical(msg)
+            raise ScrapliAuthenticationFailed(msg) from exc
         except PermissionDenied as exc:
             msg = "all authentication methods failed"
             self.logger.critical(msg)
